@@ -189,6 +189,9 @@ func genWitnessMisc(g *core.Gen, r *core.Rand, keys []keyT, n int) []caseSpec {
 			prog := r.Bytes(plen)
 			if r.Chance(1, 3) {
 				ver, prog = 0x51, []byte{0x4e, 0x73} // P2A
+				if r.Chance(1, 4) {
+					ver = byte(r.Pick(0x00, 0x52, 0x53, 0x60)) // the anchor bytes under another version
+				}
 			}
 			if r.Chance(1, 10) {
 				prog = make([]byte, plen) // all-zero program: false as a plain script
